@@ -182,7 +182,7 @@ pub fn generate(r: &mut Rng, contradictory: bool) -> Generated {
     let many_class = if r.chance(1, 24) {
         truths
             .iter()
-            .position(|t| matches!(t, Truth::DynArray { .. } | Truth::FixedArray { .. }))
+            .position(|t| matches!(t, Truth::DynArray { .. } | Truth::FixedArray { .. } | Truth::Mapping { .. }))
             .unwrap_or(usize::MAX)
     } else {
         usize::MAX
@@ -191,7 +191,10 @@ pub fn generate(r: &mut Rng, contradictory: bool) -> Generated {
     // A component variable of class k: an existing one, or a fresh one equated
     // to an existing one.
     let component = |r: &mut Rng, k: usize, class_of: &mut Vec<usize>, vars_of: &mut Vec<Vec<usize>>, judgements: &mut Vec<(usize, Ev)>| -> usize {
-        if vars_of[k].len() < 1600 && FORCE_FRESH.with(std::cell::Cell::get) {
+        // (many-pieces mode: three components in four are fresh variables;
+        // the rest are shared with other pieces, so that pieces meet which
+        // have one component in common and differ in the other)
+        if vars_of[k].len() < 1600 && FORCE_FRESH.with(std::cell::Cell::get) && r.chance(3, 4) {
             // (many-pieces mode) always a fresh element variable; half of
             // them are tied to their class by nothing but the constructor
             // merge that the piece of evidence takes part in
